@@ -37,6 +37,11 @@ class SimFile:
       self._reads += 1
       self.vfs.fired('read_raises')
       raise OSError(errno.EIO, 'simulated I/O error', self.name)
+    k = self._plan.get('read_interrupts')
+    if k is not None and self._reads == k:
+      self._reads += 1
+      self.vfs.fired('read_interrupts')
+      raise Interrupt('simulated interrupt while reading %s' % self.name)
     self._reads += 1
     if self._i >= len(self._lines):
       return b'' if self._plan.get('bytes_lines') else ''
@@ -54,6 +59,10 @@ class SimFile:
   def __exit__(self, *exc):
     self.vfs.closed += 1
     return False
+
+
+class Interrupt(BaseException):
+  """KeyboardInterrupt-like fault: not an Exception."""
 
 
 class VFS:
